@@ -516,14 +516,23 @@ var c04Noises = []string{"dup", "unknown", "badversion", "noid", "notify", "noti
 // two-call Batch are being issued concurrently; a further Call follows. The peer withholds every answer
 // until nothing moves, so all transmitted requests are in flight together: their ids must be distinct and
 // every request must complete with the answer for its own id (or the send error).
-func c04SendFault(b Bounds) *Scenario {
+func c04SendFault(b Bounds) *Scenario { return c04Abandoned("sendfault", b) }
+
+// mode "badparams": instead of a Send failure, the Batch's second spec has parameters that cannot be
+// marshalled, so the Batch is abandoned after ids were drawn for it and nothing is sent.
+func c04Abandoned(mode string, b Bounds) *Scenario {
+	name := "transient Send failure: Call || Batch[call,call], then Call; answers withheld until quiescence"
+	if mode == "badparams" {
+		name = "Batch abandoned half-way (second spec cannot be marshalled): Call || Batch[call,bad], then Call; answers withheld until quiescence"
+	}
 	return &Scenario{
-		Name:   "transient Send failure: Call || Batch[call,call], then Call; answers withheld until quiescence",
-		Params: map[string]any{"fault": "the next Send after an arbitrary moment fails once", "answers": "all at once at quiescence, in arrival order"},
+		Name:   name,
+		Params: map[string]any{"mode": mode, "answers": "all at once at quiescence, in arrival order"},
 		Bounds: b,
 		New: func() *Instance {
 			body := func() {
 				lib, peer, pipe := NewPipe(PipeOpts{Name: "cli", CloseUnblocksRecv: true})
+				_ = pipe
 				c := jrpc2.NewClient(lib, nil)
 				type seenReq struct{ id, method string }
 				var seen []seenReq
@@ -556,13 +565,19 @@ func c04SendFault(b Bounds) *Scenario {
 						vs.Note("ret", name, "ok", rsp.ID(), rsp.ResultString())
 					}
 				}
-				j.Go("fault", func() { vs.Event("env", "sendfault"); pipe.FailSend = errFault })
+				if mode == "sendfault" {
+					j.Go("fault", func() { vs.Event("env", "sendfault"); pipe.FailSend = errFault })
+				}
 				j.Go("A", func() {
 					rsp, err := c.Call(context.Background(), "mA", nil)
 					ret("mA", rsp, err)
 				})
 				j.Go("B", func() {
-					rsps, err := c.Batch(context.Background(), []jrpc2.Spec{{Method: "b0", Params: []int{1}}, {Method: "b1", Params: []int{2}}})
+					var p1 any = []int{2}
+					if mode == "badparams" {
+						p1 = []any{make(chan int)}
+					}
+					rsps, err := c.Batch(context.Background(), []jrpc2.Spec{{Method: "b0", Params: []int{1}}, {Method: "b1", Params: p1}})
 					if err != nil {
 						ret("b0", nil, err)
 						ret("b1", nil, err)
@@ -617,7 +632,8 @@ func c04SendFault(b Bounds) *Scenario {
 							v = append(v, Viol{"C04.R1", fmt.Sprintf("request %s completed with %s, the peer sent %q for its id", m, e.Arg(3), "R:"+m)})
 						}
 					case "err":
-						if !strings.Contains(e.Arg(2), errFault.Error()) && !strings.Contains(e.Arg(2), "closed") && !strings.Contains(e.Arg(2), "cancel") {
+						if !strings.Contains(e.Arg(2), errFault.Error()) && !strings.Contains(e.Arg(2), "closed") && !strings.Contains(e.Arg(2), "cancel") &&
+							!(mode == "badparams" && (m == "b0" || m == "b1")) {
 							v = append(v, Viol{"C04.R1", fmt.Sprintf("request %s failed with %q, which nothing in the scenario causes", m, e.Arg(2))})
 						}
 					default:
@@ -649,7 +665,7 @@ func c04Scenarios(tier string) []*Scenario {
 			}
 		}
 	}
-	out = append(out, c04Reissue(b2), c04SendFault(bn))
+	out = append(out, c04Reissue(b2), c04SendFault(bn), c04Abandoned("badparams", bn))
 	for i, pm := range perms(3) {
 		if q && i%2 == 1 {
 			continue
